@@ -106,7 +106,13 @@ HeaderOK(h, tags) ==
 (* part) or "test" (package loaded with its _test files).                      *)
 (* optTags: Options.BuildTags; yTags: tags set by a yaegi:tags comment in the  *)
 (* importing main file.                                                        *)
-Tags(c) == c.optTags \cup c.yTags
+(* car: another file of the package, presented BEFORE the file of the case,    *)
+(* that carries a comment  // yaegi:tags foo : "none"; "incl" it takes part    *)
+(* (its tag counts from then on); "hdr" its constraint header excludes it,     *)
+(* "name" its file name excludes it: a file that does not take part adds       *)
+(* nothing to the tag set.                                                      *)
+Cars == {"none", "incl", "hdr", "name"}
+Tags(c) == c.optTags \cup c.yTags \cup (IF c.car = "incl" THEN {"foo"} ELSE {})
 
 \* the toolchain's notion of a test file: the file name ends in _test.go
 IsTestFile(c) == ~c.dot /\ (c.test \/ (c.els # <<>> /\ c.els[Len(c.els)] = "test"))
@@ -145,9 +151,10 @@ ElsUpTo(n) == UNION {[1..k -> NameWords] : k \in 0..n}
 VARIABLES case, verdict
 vars == <<case, verdict>>
 
-MkCase(pre, els, test, dot, h, load, ot, yt) ==
+MkCaseC(pre, els, test, dot, h, load, ot, yt, car) ==
     [pre |-> pre, els |-> els, test |-> test, dot |-> dot, h |-> h, load |-> load,
-     optTags |-> ot, yTags |-> yt]
+     optTags |-> ot, yTags |-> yt, car |-> car]
+MkCase(pre, els, test, dot, h, load, ot, yt) == MkCaseC(pre, els, test, dot, h, load, ot, yt, "none")
 
 \* (a) every name, no header
 InitNames ==
@@ -171,6 +178,13 @@ InitHeaders ==
     /\ case \in
          {MkCase("c", <<>>, FALSE, FALSE, [kind |-> "go", e |-> e, p |-> <<>>, attached |-> FALSE],
                  "import", ot, yt) : e \in E1, ot \in TagSets, yt \in {{}, {"foo"}}}
+         \cup
+         \* the tag comes (or does not come) from a carrier file of the same package
+         {MkCaseC("c", <<>>, FALSE, FALSE, [kind |-> "go", e |-> e, p |-> <<>>, attached |-> FALSE],
+                 "import", ot, {}, car) : e \in E1, ot \in {{}, {"bar"}}, car \in Cars \ {"none"}}
+         \cup
+         {MkCaseC("c", <<>>, FALSE, FALSE, [kind |-> "plus", e |-> Atom(WordAtom("x")), p |-> p, attached |-> FALSE],
+                 "import", {}, {}, car) : p \in PlusShapes, car \in Cars \ {"none"}}
          \cup
          {MkCase("c", <<>>, FALSE, FALSE, [kind |-> "plus", e |-> Atom(WordAtom("x")), p |-> p, attached |-> att],
                  "import", ot, {}) : p \in PlusShapes, ot \in TagSets, att \in BOOLEAN}
@@ -199,8 +213,9 @@ RandHeader(z) ==
 RandCase(z) ==
     LET load == RandomElement({"import", "import", "test"})
         yt   == IF load = "import" THEN RandomElement(TagSets) ELSE {}
-    IN MkCase(RandomElement(Pres), RandomElement(ElsUpTo(3)), RandomElement(1..3) = 1,
-              RandomElement(1..6) = 1, RandHeader(z), load, RandomElement(TagSets), yt)
+    IN MkCaseC(RandomElement(Pres), RandomElement(ElsUpTo(3)), RandomElement(1..3) = 1,
+               RandomElement(1..6) = 1, RandHeader(z), load, RandomElement(TagSets), yt,
+               IF load = "import" THEN RandomElement(Cars \cup {"none", "none"}) ELSE "none")
 
 InitSim == case = MkCase("c", <<>>, FALSE, FALSE, NoHeader, "import", {}, {}) /\ verdict = "yes"
 NextSim == /\ case' = RandCase(case)
